@@ -1734,7 +1734,8 @@ func (s *Server) clearExpiredClients(dt int64) {
 		}
 
 		expire := s.Options.Capabilities.MaximumSessionExpiryInterval
-		if client.Properties.ProtocolVersion == 5 && client.Properties.Props.SessionExpiryIntervalFlag {
+		if client.Properties.ProtocolVersion == 5 && client.Properties.Props.SessionExpiryIntervalFlag &&
+			client.Properties.Props.SessionExpiryInterval < expire { // the server maximum caps the client's interval
 			expire = client.Properties.Props.SessionExpiryInterval
 		}
 
